@@ -126,3 +126,23 @@ def refix(inst, fixpub, fixpriv):
     readyat = [max([0] + [posof.get(w, 0) for lc in con for w, _c in lc]) for con in inst["cons"]]
     inst["readyidx"] = [[j + 1 for j, r in enumerate(readyat) if r == k + 1] for k in range(len(keep))]
     return inst
+
+
+def from_trace_e2e(tr, mode="unique", extra=None):
+    """End-to-end instance: only the program INPUTS (the wires of the leading `new` steps) are fixed; every wire allocated
+    afterwards -- by any call of the program, inside or outside guarded regions -- is adversarial.  The result is the
+    result of the last call tagged "main"."""
+    evs = tr["events"]
+    k = 0
+    while k < len(evs) and evs[k]["op"] == "new" and evs[k]["depth"] == 0:
+        k += 1
+    base = dict(tr)
+    base["events"] = [dict(e, tag="main") if (i >= k and e["op"] != "end") else dict(e, tag="") for i, e in enumerate(evs)]
+    inst = from_trace(base, mode, extra)
+    if inst is None:
+        return None
+    mains = [e for e in evs if e.get("tag") == "main"]
+    last = mains[-1] if mains else evs[-2]
+    inst["res"] = [leafv(x) for x in last["res"] if x["k"] in ("int", "bool", "fxp")]
+    inst["out"] = "raise" if any(e["out"] != "ok" for e in evs) else "ok"
+    return inst
